@@ -15,7 +15,7 @@ The property below is supposed to hold for the code base:
 
 Your task: write a realistic change (a plausible bug a maintainer could introduce: a refactoring slip, an "optimisation", an off-by-one, a dropped check, a reordered step, a missed case) to the project's source under {wt}/src that BREAKS this property while the project still compiles and its existing tests still pass. The change must need something specific in order to manifest — a particular kind of input or program shape, a multi-step sequence of operations, a crash/fault at a particular point, a particular interleaving, an unusual value, or two cooperating sites that each look fine alone — NOT something that ordinary use or the first smoke test would expose at once. Keep it small (a few lines to a few dozen), do not touch tests, do not add dependencies, and do not add cfg flags or features.
 
-Also write a demonstration: a new integration test file {wt}/tests/seeded_{pid.lower()}{variant}_demo.rs (or, if easier, a small example program) that FAILS with your change applied and PASSES without it (check both: `git stash` / `git stash pop` of the src change, or apply/revert the patch). The demonstration should use the crate's public API (crate name `inputlayer`).
+Also write a demonstration: a new integration test file {wt}/tests/seeded_{pid.lower()}{variant}_demo.rs (or, if easier, a small example program) that FAILS with your change applied and PASSES without it (check both by applying/reverting a patch file: `git diff -- src > /tmp/x.diff && git apply -R /tmp/x.diff` ... `git apply /tmp/x.diff`; do NOT use `git stash`, the stash is shared between all worktrees of this repository and other people are working in parallel). The demonstration should use the crate's public API (crate name `inputlayer`).
 
 Then check that the existing tests still pass with your change: at least `cargo test --offline --lib` plus the integration tests that look related to the code you touched (`cargo test --offline --test <name>`). Running the whole suite takes long (it has ~3200 tests in 32 binaries) and every integration-test binary costs ~1 GB of disk in your target directory, and disk is scarce on this shared machine: run `cargo test --offline --lib` plus AT MOST FOUR integration-test binaries (the ones most related to your change), keep your target directory under ~12 GB (check with `du -sh`), and say exactly what you ran. The first build may take 20+ minutes because the machine is busy; be patient and avoid needless rebuilds. If an existing test fails because of your change, pick a different change.
 
